@@ -21,6 +21,7 @@ EXPLANATION = ("Necessary structural clauses of C06 (not the absence of every pa
                "tree are genuine defects listed one by one in known_findings.json; any other cell failing is a new violation."
                " (R3 cell assert_slice_crc) every slice index on the CRC path, taken also when damage has been detected, is bounded by the length of the slice it indexes; (R5 arith) no unguarded panicking arithmetic on values parsed before any CRC was verified."
                ' Added later: (R8) no statically resolved call cycle in code that reads files; (R9) under block_check = Crc32 every path of Source::cut verifies (= C05-R2); (R10) the error of a block parse ends the operation (no error arm that goes on or spins). (R11) reader code starts no thread of its own. (R7) also the match form of a swallowed error; (R12) no Result<_, Error | io::Error> of the reader is unwrapped or expected, except right-sized in-memory integer reads.')
+EXPLANATION += " Batch 12: (R13) the code that builds and converts the library's errors performs no operation that panics on a bound."
 ASSUMPTIONS = ["compiler-inserted bounds checks after a successful length check are not counted", "decompression libraries return Err (not panic) on damaged streams",
                "rustc MIR construction and trait resolution; call graph over-approximates dynamic dispatch"]
 
@@ -713,7 +714,33 @@ def r12_errors_are_not_unwrapped(cx):
     cx.ob("R12", "R12/no-error-is-unwrapped", not bad, "(reader)", "%d unwrap/expect of Result<_, Error | io::Error> in reader code, all on right-sized in-memory integer reads" % n)
 
 
+def r13_reporting_damage_cannot_panic(cx):
+    """'returns a value or an error': when a CRC does not match, the bytes of the block travel in the error value
+    (`CorruptedFile { buf, found_checksum }` -> `Error`). The code that builds, converts and formats these errors handles
+    buffers of *any* length -- blocks of a few bytes exist in every container -- so it performs no operation that panics on
+    a bound: no `drain` / `split_off` / `remove` / `split_at` / `copy_from_slice` / range indexing, no checked subtraction
+    on a length (`assert_slice_crc` itself is the R3 cell above)."""
+    F = cx.F
+    fs = [f for f in F.live_fns if "blocks" in f and re.search(r"bases::types::error::", f["name"]) and not re.search(r"as std::fmt::(Debug|Display)>::fmt$", f["name"])]
+    if len(fs) < 5:
+        raise AnchorLost("functions of bases::types::error: %d" % len(fs))
+    bad = []
+    for f in fs:
+        b = F.body(f)
+        for i, t in b.calls(r"Vec::<.*>::(drain|split_off|remove|swap_remove|insert|truncate)(::<.*>)?$", r"impl \[.*\]>::(split_at|split_at_mut|copy_from_slice|copy_within|swap)$",
+                            r"ops::Index(Mut)?<std::ops::Range(From|To|Inclusive|ToInclusive)?<usize>>>::index(_mut)?$", r"SliceIndex<\[.*\]>>::index(_mut)?$", r"VecDeque::<.*>::(drain|split_off)"):
+            if not b.is_cleanup(i):
+                bad.append("%s:%s %s" % (re.sub(r"<.*?>", "", f["name"]).split("::")[-1], t.get("ln"), callee_str(t).split("::<")[0].split("::")[-1]))
+        for i in range(b.n):
+            t = b.term(i)
+            if t["k"] == "assert" and not b.is_cleanup(i) and re.search(r"Overflow|BoundsCheck|DivisionByZero", str(t.get("kind", t.get("msg", "")))):
+                if not any("debug_assert" in str(x) for x in (t.get("mb") or [])):
+                    bad.append("%s:%s checked arithmetic / bounds check" % (re.sub(r"<.*?>", "", f["name"]).split("::")[-1], t.get("ln")))
+    cx.ob("R13", "R13/error-construction/no-panic-on-a-bound", not bad, "src/bases/types/error.rs", "%d functions build and convert the errors of the library; none slices, drains or subtracts on a length (%s)" % (len(fs), bad or "none"))
+
+
 RULES = [
+    ("R13", r13_reporting_damage_cannot_panic, 1),
     ("R12", r12_errors_are_not_unwrapped, 1),
     ("R11", r11_the_reader_starts_no_thread_of_its_own, 1),
     ("R10", r10_block_errors_end_the_operation, 15),
